@@ -293,6 +293,12 @@ example : ∃ agp1 tpf agp2, formatAgp demo = .ok agp1 ∧ formatTpf demo = .ok 
 example : processFh .AGP ['a'] ["# hdr\n".toList, "\n".toList, "s\t1\t5\t1\tW\tc\t1\t5\t+\n".toList] (some .TPF) false =
     .ok ("## hdr\n?\tc:1-5\ts\tPLUS\n".toList, []) := by decide +kernel
 
+/-- a two-file run that ends without exception (hypothesis of `asm_format_line_or_error_files`) -/
+example : outFmtOf none none = .ok .AGP ∧
+    (asmFormat {} [("a.agp".toList, ["# h\n".toList, "s\t1\t5\t1\tW\tc\t1\t5\t+\n".toList]),
+                   ("b.tpf".toList, ["?\tc:1-5\ts1\tPLUS\n".toList, "\n".toList, "GAP\tTYPE-2\t3\n".toList])] []).error = none := by
+  decide +kernel
+
 /-! ## Findings -/
 
 /-- FINDING (real run: `asm-format ip.agp -o ip.agp` exits 0 and leaves `ip.agp` EMPTY): reformatting a file in
@@ -313,7 +319,7 @@ theorem in_place_run_loses_everything (o : AsmFormatOpts) (fileName : Str) (line
 
 /-- FINDING (real runs: `asm-format cr.agp` fails, `asm-format < cr.agp` succeeds and prints two rows): a carriage
     return inside a field survives STDIN but cuts the line when the same bytes come from a file argument, so the
-    no-`'\r'` condition of the text-level theorems is needed.  Here the contig name `c\rd`, which `WFAgp` admits. -/
+    no-`'\r'` condition of the text-level theorems is needed.  Here the contig name `c\rd`, which `WFAgp` allows. -/
 example :
     let a : Assembly := { scaffolds := [{ name := "s1".toList, rows := [.frag { name := "c\rd".toList, start := 1, stop := 5, strand := 1 }] }] }
     WFAgp a ∧ NoNewlines a ∧ ∃ lines, formatAgp a = .ok lines ∧
